@@ -65,7 +65,32 @@ def generate(rng, tier):
         # big streams
         for i in range(8):
             cases.append(session_case(rng, special_key(rng), rbytes(rng, 1 << 20), "1MiB-stream"))
+    if tier == "thorough":
+        cases += step_table_cases(rng, "v")
     return cases
+
+def step_table_cases(rng, exp):
+    """full step table (every position x previous byte x input byte, both directions), digest on both sides;
+    the oracle recomputes the digest independently"""
+    out = []
+    for K in (rbytes(rng, 40), bytes(range(40))):
+        key = K if exp == "v" else pyref.tbc_key(K)
+        L = len(key)
+        def expd(o, key=key, L=L):
+            h = 0xcbf29ce484222325; n = 0
+            M = 0xFFFFFFFFFFFFFFFF; P = 0x100000001b3
+            for pos in range(L):
+                for prev in range(256):
+                    if pos == 0 and prev: continue
+                    k = key[pos]
+                    for x in range(256):
+                        h = ((h ^ (((x ^ k) + prev) & 0xFF)) * P) & M
+                        h = ((h ^ (((x - prev) & 0xFF) ^ k)) * P) & M
+                        n += 1
+            want = "fnv %016x n=%d ~0" % (h, n)
+            return None if o == want else "step table digest differs from the recurrence: expected " + want
+        out.append(Case("hdr.steps %s %s" % (exp, K.hex()), "full-step-table", expd))
+    return out
 
 def nontrivial(case, out):
     if case.meta and case.meta.get("n", 1) == 0:
